@@ -443,8 +443,9 @@ def stream_ctxraw(ctx, shim, ch, r, n):
             continue
         seen.add(f[3])
         _, how, desc, rl, nl, al, x, y, z = f
-        ctx.violation("the joining pass depends on context characters BEHIND the context length (what an earlier "
-                      "set_pre_context / set_post_context call left in the array): "
+        ctx.violation("the joining pass on a buffer with a HISTORY of context calls differs from the pass on a fresh buffer given "
+                      "only the effective (last) context of each side — it depends on what earlier set_pre_context / "
+                      "set_post_context / add calls left in the context arrays or lengths: "
                       + (f"after the calls `{desc}` " if how == "history" else "")
                       + f"{rl} -> {x}; the same text on a fresh buffer with only the effective context ({al}) -> {z}; "
                       f"with NUL behind the lengths -> {y}",
@@ -488,18 +489,23 @@ def dispatch_search(ctx, shim, ch):
         cps = set(range(0x110000))
     cps = sorted(c for c in cps if not 0xD800 <= c <= 0xDFFF)
     ch.learn(shim, cps)
-    bad = 0
+    tgcs = {int(x) for x in q(shim, ["arabic tgcs"], nproc=1)[0].split()}
+    bad = nb = nn = 0
     for c in cps:
         want = lay.get(c, X)
         if ch.raw[c] != want:
             bad += 1
-            if bad <= 3:
+            # the resolved type tells whether the slip changes behaviour at this code point (a missed entry U of a
+            # character that is derived U anyway does not): only then it is a failing input
+            behav = ch.res[c] != (want if want != X else JT_NUM["T"] if ch.gc[c] in tgcs else JT_NUM["U"])
+            if (behav and nb < 3) or (not behav and nn < 1):
+                nb, nn = nb + behav, nn + (not behav)
                 where = f"JOINING_TABLE[{[o for s_, o in d['offsets'] if s_ <= c][-1] + c - [s_ for s_, o in d['offsets'] if s_ <= c][-1]}]" if c in lay else "no table entry"
                 ctx.violation(f"joining_type(U+{c:04X}) returns {ch.raw[c]} but the table's own layout gives U+{c:04X} "
                               f"{'the entry ' + str(want) + ' (' + where + ')' if c in lay else 'no entry (X = 8)'}: a range test of "
                               f"the dispatch does not cover exactly its slice of JOINING_TABLE",
                               {"stage": "search", "stream": "joining-dispatch", "request": f"arabic jt {c}", "what_field": "raw",
-                               "expected": want, "observed": ch.raw[c]})
+                               "expected": want, "observed": ch.raw[c], "behavioural": behav}, found_input=behav)
     # derivation for characters WITHOUT an explicit entry: Mn / Me / Cf -> T, everything else U; WITH one: the entry
     fmt_gc = ch.gc.get(0x200E, ch.gc.get(0x00AD))
     cf = [c for c in cps if unicodedata.category(chr(c)) == "Cf" and ch.gc[c] == fmt_gc]
